@@ -1,4 +1,5 @@
 import OdakProofs.Lemmas.Mat3
+import OdakProofs.Lemmas.GenGeometry
 import OdakProofs.Props.C13
 import OdakModel.Rays
 import Mathlib.Analysis.SpecialFunctions.Trigonometric.Inverse
@@ -196,5 +197,39 @@ theorem C14_placement_rigid (angles center p q : Vec3 ℝ) :
 
 /-- non-vacuity -/
 example : (0 : ℝ) ≤ 1 / 2 ∧ (1 / 2 : ℝ) ≤ 1 ∧ (0 : ℝ) ≤ 60 ∧ (60 : ℝ) ≤ 180 := by norm_num
+
+end Odak
+
+/-! ## The same conclusions for the definitions REGENERATED from the Python source
+  (`Generated/GeometryGen.lean`, tied to the model by `Lemmas/GenGeometry.lean`).  `…T` = torch, `…N` = NumPy. -/
+namespace Odak
+open Odak.Gen
+
+/-- generated `create_ray_from_two_points` (both APIs), distinct points: the ray starts at the first point, has unit
+    direction cosines, and travelling the distance between the points along them reaches the second point -/
+theorem C14_gen_two_points (p0 p1 : Vec3 ℝ) (hne : p0 ≠ p1) :
+    ∀ ray ∈ [twoPointsT p0 p1, twoPointsN p0 p1],
+      ray.o = p0 ∧ Vec3.normSq ray.d = 1 ∧ ray.o + Vec3.smul (Vec3.norm (p1 - p0)) ray.d = p1 := by
+  intro ray h
+  have e : ray = ⟨p0, rayDirTwoPoints p0 p1⟩ := by
+    rcases List.mem_cons.mp h with h | h
+    · rw [h, twoPointsT_eq]
+    · rw [List.mem_singleton.mp h, twoPointsN_eq]
+  subst e
+  exact ⟨rfl, C14_two_points p0 p1 hne⟩
+
+/-- generated NumPy `propagate_a_ray` composed with the generated two-point ray: propagating by the distance between the
+    points lands on the second point and keeps the unit direction -/
+theorem C14_gen_two_points_propagate_n (p0 p1 : Vec3 ℝ) (hne : p0 ≠ p1) :
+    (propagateARayN (twoPointsN p0 p1) (Vec3.norm (p1 - p0))).o = p1 ∧
+    Vec3.normSq (propagateARayN (twoPointsN p0 p1) (Vec3.norm (p1 - p0))).d = 1 := by
+  rw [propagateARayN_eq, twoPointsN_eq]
+  exact ⟨(C14_two_points p0 p1 hne).2, (C14_two_points p0 p1 hne).1⟩
+
+/-- generated torch `propagate_ray`: the start point moves by `distance` along the direction (as in NumPy), but the returned
+    direction cosines are zero, whatever the input direction (the source fills only the start point of a zero tensor) -/
+theorem C14_gen_propagate_ray_t (r : Ray ℝ) (t : ℝ) :
+    (propagateRayT r t).o = (propagateARayN r t).o ∧ (propagateRayT r t).d = ⟨0, 0, 0⟩ := by
+  rw [propagateRayT_eq, propagateARayN_eq]; exact ⟨rfl, rfl⟩
 
 end Odak
